@@ -145,12 +145,48 @@ def r62b(facts, res):
         return
     c = clos[0]
     loops = c.loops()
+    pr = facts.adt('lrpar::parser::ParseRepair')
+    ins_d = [v['discr'] for v in pr['variants'] if v['name'] == 'Insert'][0]
+    if not loops:
+        # the same test as an iterator adaptor: Iterator::any over the whole sequence with an element predicate
+        parent = facts.bodies.get(c.parent)
+        anys = []
+        for bb, t in (parent.calls_named('any') if parent is not None else []):
+            st = callee_of(t).get('self_ty') or ''
+            l = op_local(t['args'][1]) if len(t['args']) > 1 else None
+            isc = any(kind == 'stmt' and 'agg' in rv and isinstance(rv['agg'], dict) and rv['agg'].get('closure') == c.path for _bb, kind, rv in parent.defs().get(l, ()))
+            if isc and 'slice::iter::Iter<' in st and 'ParseRepair' in st:
+                anys.append(bb)
+        if len(anys) != 1 or parent.lty(0) != 'bool':
+            res.lost(R, 'the avoid-insert test has no loop and is not one Iterator::any over the repair sequence')
+            return
+        pps = Walker(parent, facts, max_paths=64).run()
+        if not pps or not all(p.end[0] == 'return' and is_call(p.end[1], 'any') for p in pps):
+            res.bad(R, 'avoid-any', loc_of(parent, anys[0]), 'the result of any() over the sequence is not what the test answers')
+            return
+        probs = []
+        n = 0
+        for p in Walker(c, facts, max_paths=64).run():
+            if p.end[0] != 'return':
+                continue
+            n += 1
+            ret = p.end[1]
+            isins = [v for cd, v in p.conds if cd[0] == 'discr' and isinstance(v, int)]
+            av = [v for cd, v in p.conds if is_call(cd, 'avoid_insert')]
+            if ins_d in isins:
+                if not (is_call(ret, 'avoid_insert') or (av and ret == ('const', av[0]))):
+                    probs.append('for an Insert the element predicate answers %s, not avoid_insert(token)' % fmt_term(ret)[:40])
+            elif ret != ('const', 0):
+                probs.append('for a repair that is not an Insert the element predicate answers %s' % fmt_term(ret)[:40])
+        if probs or n < 2:
+            res.bad(R, 'avoid-any', loc_of(c), '; '.join(sorted(set(probs))) or 'could not read the element predicate')
+        else:
+            res.ok(R, 'avoid-any', loc_of(c), 'Iterator::any over the whole sequence with the predicate "is an Insert of an avoided token"')
+        return
     if len(loops) != 1:
         res.lost(R, 'expected one loop in the avoid-insert test')
         return
     h = list(loops)[0]
-    pr = facts.adt('lrpar::parser::ParseRepair')
-    ins_d = [v['discr'] for v in pr['variants'] if v['name'] == 'Insert'][0]
     w = Walker(c, facts, max_paths=64)
     ps = w.run(h, stop=lambda x: x == h)
     probs = []
@@ -177,6 +213,42 @@ def r62b(facts, res):
         res.ok(R, 'avoid-any', loc_of(c, h), 'true at the first avoided insertion anywhere in the sequence, false only when the sequence is exhausted')
 
 
+def eof_excluding_filters(facts, b):
+    """definition paths of closures handed to Iterator::filter in `b` that answer true
+    only for a token different from eof_token_idx()"""
+    out = []
+    for bb, t in b.calls_named('filter'):
+        if len(t['args']) < 2:
+            continue
+        l = op_local(t['args'][1])
+        cb = None
+        for _bb, kind, rv in b.defs().get(l, ()):
+            if kind == 'stmt' and 'agg' in rv and isinstance(rv['agg'], dict) and 'closure' in rv['agg']:
+                cb = facts.bodies.get(rv['agg']['closure'])
+        if cb is None:
+            continue
+        ps = Walker(cb, facts, max_paths=64).run()
+        good = bool(ps)
+        for p in ps:
+            r = p.end[1] if p.end[0] == 'return' else None
+            if r is None:
+                good = False
+            elif r == ('const', 0):
+                pass
+            elif r[0] == 'bin' and r[1] == 'Ne' and has_call(r, 'eof_token_idx') and term_has(r, lambda x: x == ('param', 2)):
+                pass
+            elif r[0] == 'un' and r[1] == 'Not' and r[2][0] == 'bin' and r[2][1] == 'Eq' and has_call(r[2], 'eof_token_idx') and term_has(r[2], lambda x: x == ('param', 2)):
+                pass
+            elif any(c[0] == 'bin' and c[1] in ('Eq', 'Ne') and has_call(c, 'eof_token_idx') and term_has(c, lambda x: x == ('param', 2))
+                     and ((v == 0) if c[1] == 'Eq' else (v == 1)) for c, v in p.conds):
+                pass
+            else:
+                good = False
+        if good:
+            out.append(cb.path)
+    return out
+
+
 def r63(facts, res):
     R = 'R6.3'
     n = 0
@@ -187,19 +259,29 @@ def r63(facts, res):
         for bb, i, st in b.stmts():
             if st['k'] == 'assign' and 'agg' in st['rv'] and isinstance(st['rv']['agg'], dict) and st['rv']['agg'].get('vname') == 'InsertTerm' \
                     and st['rv']['agg'].get('adt', '').endswith('cpctplus::Repair'):
-                sites.append(bb)
-        for bb in sites:
+                sites.append((bb, st['lhs']['l']))
+        for bb, lhs in sites:
             n += 1
             w = widening_walker(b, facts, max_paths=2048)
             ps = [p for p in w.run(0) if bb in p.blocks]
             key = 'insert-term:%s' % strip_generics(b.path).split('::')[-1]
             ok = bool(ps)
+            filt = None
             for p in ps:
                 guard = [(c, v) for c, v in p.conds if c[0] == 'bin' and c[1] in ('Eq', 'Ne') and has_call(c, 'eof_token_idx')]
                 g = False
                 for c, v in guard:
                     ne = (v == 0) if c[1] == 'Eq' else (v == 1)
                     if ne:
+                        g = True
+                if not g:
+                    # the same guard as an iterator filter: the inserted token is drawn from Filter<_, P>::next and P excludes the EOF token
+                    if filt is None:
+                        filt = eof_excluding_filters(facts, b)
+                    it = p.env.get((lhs, ()))
+                    tok = it[4][0] if it is not None and it[0] == 'variant' and it[4] else None
+                    if tok is not None and filt and term_has(tok, lambda x: isinstance(x, tuple) and x and x[0] == 'call' and 'filter::Filter<' in x[1] and x[1].endswith('::next')
+                                                             and term_has(x, lambda y: isinstance(y, tuple) and y and y[0] == 'closure' and y[1] in filt)):
                         g = True
                 if not g:
                     ok = False
@@ -443,7 +525,7 @@ def r67(facts, res):
         w = Walker(b, facts, max_paths=64)
         ps = [p for p in w.run(ih, stop=lambda x: x == ih or x not in loops[ih]) if bb in p.blocks]
         for p in ps:
-            if not any(cd[0] == 'bin' and cd[1] == 'Eq' and v == 1 for cd, v in p.conds):
+            if not any(cd[0] == 'bin' and ((cd[1] == 'Eq' and v == 1) or (cd[1] == 'Ne' and v == 0)) for cd, v in p.conds):
                 good = False
     if good:
         res.ok(R, 'sweep-cost-filter', loc_of(b, ins[0][0]), 'the sweep keeps a neighbour only when its cost equals the cost of the first success')
